@@ -40,6 +40,25 @@ def handleShSplit (j : Json) : Except String Json := do
   | none => return Json.mkObj [("words", Json.null)]
   | some ws => return Json.mkObj [("words", toJson (ws.map String.ofList))]
 
+def handleArgs (j : Json) : Except String Json := do
+  let root ← Args.modFromJson (← j.getObjVal? "root")
+  let words : List String ← fromJson? (← j.getObjVal? "words")
+  let vars : List String ← fromJson? (← j.getObjVal? "variables")
+  let pos := Args.positional words {}
+  let unknown := pos.overrides.filter (fun o => !vars.contains o.1)
+  if !unknown.isEmpty then
+    return Json.mkObj [("error", "UnknownOverrides")]
+  match Args.parseArguments root pos.args with
+  | .error e => return Json.mkObj [("error", toJson e), ("overrides", toJson pos.overrides)]
+  | .ok gs =>
+    let out ← gs.mapM (fun g =>
+      match Args.bindArgs g.sig.params g.args [] with
+      | .ok vs => pure (Json.mkObj [("id", g.sig.id), ("values", toJson vs), ("path", toJson g.path),
+        ("nargs", toJson g.args.length)])
+      | .error e => throw s!"bind failed: {repr e}")
+    return Json.mkObj [("groups", Json.arr out.toArray), ("overrides", toJson pos.overrides),
+      ("searchDir", toJson pos.searchDir)]
+
 def handle (line : String) : Json :=
   match Json.parse line with
   | .error e => Json.mkObj [("fatal", s!"parse: {e}")]
@@ -50,6 +69,7 @@ def handle (line : String) : Json :=
       | "run" => handleRun j
       | "signals" => handleSignals j
       | "quote" => handleQuote j
+      | "args" => handleArgs j
       | "shsplit" => handleShSplit j
       | _ => throw s!"unknown op {op}"
     match r with
